@@ -233,12 +233,48 @@ PROPS = {
     ),
 }
 
+PROPS["C04"] = dict(
+    modules=["HT.Props.C04"],
+    streams=["c04seg"],
+    rule="services configured on a real Honeytrap (real Run(): construction, port table, bus, filter -> capture channel), "
+         "connections handed to the real handle() (findService, timeout wrapper, recover) over a scripted connection whose "
+         "Read returns exactly one client segment: per service (ftp, telnet, memcached, redis, smtp incl. DATA and BDAT; http "
+         "and UDP services: see c04seg statistics) grammar-generated dialogues delivered in one piece, one write per command "
+         "(pipelined and lock-step), at every single cut point (all for short streams, a stride for long ones), sampled "
+         "multi-cut, one byte per read, and cut short; mutated/raw streams; each through the Lean framing machine with the "
+         "same segments; oracle: events equal those of the same bytes in one piece and the list computed from the commands "
+         "as generated; non-trivial = at least one event; distinct = distinct case line",
+    trusted=COMMON_TB + ["verif hook server/verif_hooks.go (VerifNew, VerifHandle)",
+                         "scripted in-memory connection instead of a kernel socket (segment = what one Read returns)",
+                         "modelled, not verified: bufio/textproto/net/mail/net/http library behaviour below the calls the "
+                         "handlers make (compared through the runs); telnet line editing beyond printable ASCII, CR, LF; "
+                         "smtp STARTTLS and header blocks beyond simple 'Key: value' lines are outside the model (oracle only)"],
+    assumptions=["rate limiters never refuse in these runs (one datagram per source address): a datagram the limiter drops is "
+                 "C10's subject, not C04's",
+                 "lines shorter than bufio.Scanner's 64 KiB token limit (redis)"],
+)
+
 HOOK_COMMITS = ["0596fc6", "c47bf54", "a8020ca", "beeea88", "49bef1d", "2596f07"]
 
 NOT_BUILT = "check not built yet in this round (design in DESIGN.md section 7); not claimed until its theorems and correspondence stream exist"
 NOT_APPLICABLE = {("C%02d" % i): NOT_BUILT for i in range(1, 21)}
 
 MANIFEST_TEXT = {
+    "C04": dict(
+        text="Lean theorems: for every framing machine whose unit parser is monotone (a parse that succeeded succeeds "
+             "identically when more bytes follow) and progresses, every segmentation of a byte stream - any number of "
+             "segments, any cut points - yields the events, state and unconsumed bytes of the stream delivered in one "
+             "piece (C04_segmentation_independence, induction over segments and drain steps); the ftp, telnet, memcached, "
+             "redis (RESP arrays of any nesting) and smtp (state functions, DATA dot-reader, BDAT) handlers are such "
+             "machines; ftp/telnet/memcached: any command sequence yields exactly one event per command in order with its "
+             "fields (memcached: the first 80 bytes of the value, whatever it contains). Tied to the real services by runs "
+             "through the real dispatcher over every single cut point of generated dialogues.",
+        design_ref="DESIGN.md section 7, C04 and section 11",
+        note="Partial: the exactly-once theorems are proved for ftp, telnet and memcached; for redis and smtp the "
+             "segmentation theorem is proved and the event list is checked by the correspondence and the oracle; http and "
+             "the UDP services are covered by the oracle runs only. Library parsing (textproto, net/mail, net/http) is modelled.",
+        technique="Lean 4 proof (parser-combinator monotonicity, induction over segmentations) + differential correspondence",
+    ),
     "C16": dict(
         text="Lean theorems: every message type decodes to what was encoded (any address length, port, payload < 65536) and "
              "a frame is parsed off the stream exactly; for every message sequence (any interleaving of any number of "
